@@ -289,6 +289,28 @@ CHECKS = {
         "is out of scope.",
         "DESIGN.md 5/C06",
     ),
+    "C11": (
+        "fault_enumeration",
+        "fault injection: exhaustive enumeration of kill points (every line "
+        "event of the backup / overwrite / commit / close / restore "
+        "functions, found by a line tracer in a child process) plus "
+        "second-level kills of the recovering open and SIGKILL at drawn "
+        "delays; state oracle from a pristine process",
+        "Every executed source line of create_db, backup_db, close_db_conn, "
+        "add_page, overwrite_pages, overwrite_single_page and "
+        "analyze_and_overwrite_pages in a scripted life-cycle (two WAL "
+        "variants x backup / no-backup flow) is used as a kill point "
+        "(thorough: all ~1500 events per configuration, the recovering open "
+        "killed at each of its lines for every third point, 80 SIGKILLs on a "
+        "4 MB database; quick: every distinct line plus every 5th event); a "
+        "pristine process must then open a database that passes "
+        "integrity_check and holds exactly the expected page map.",
+        "Process kill only (no power-loss / fsync modelling); kill points "
+        "exist only where Python line events exist, the C-level backup "
+        "window is covered by timed SIGKILLs; trusts sys.settrace and "
+        "SQLite.",
+        "DESIGN.md 5/C11",
+    ),
 }
 
 NOT_YET = "check not built yet in this round (planned in DESIGN.md section 5)"
